@@ -14,6 +14,7 @@ package main
 import (
 	"encoding/json"
 	"fmt"
+	"math/rand"
 	"os"
 	"path/filepath"
 	"regexp"
@@ -397,6 +398,10 @@ func runC01(c *Ctx) {
 	cases = append(cases, c01ReadCorpus(filepath.Join(filepath.Dir(c.Corpus), "tiera"))...)
 	nCorpus := len(cases)
 	cases = append(cases, c01Families(c.Rng, c.Thorough)...)
+	// own generator: the narrowing / shared-path / same-stage-control families must not shift
+	// the random stream of the generated programs below
+	cases = append(cases, c01NarrowFamilies(rand.New(rand.NewSource(c.Seed*104729+17)), c.Thorough)...)
+	cases = append(cases, c01MapStaticFamily(rand.New(rand.NewSource(c.Seed*104729+23)), c.Thorough)...)
 	optsList := []GenOpts{
 		{},
 		{MaxDepth: 3, MaxCalls: 3},
@@ -460,6 +465,14 @@ func runC01(c *Ctx) {
 				final = "error"
 			}
 			r.hist("final:" + final)
+			if strings.HasPrefix(cs.name, "family/narrow-") || strings.HasPrefix(cs.name, "family/disabled-same-stage") ||
+				strings.HasPrefix(cs.name, "family/map-static") {
+				cls := strings.Join(strings.SplitN(strings.TrimPrefix(cs.name, "family/"), "-", 3)[:2], "-")
+				r.hist("family:" + cls + ":" + final)
+				if final != "complete" && si == cs.specs[0] {
+					r.note("family program %s: %s %s", cs.name, res.Final, c01Trunc(res.Compile+res.ErrMsg, 300))
+				}
+			}
 			if cs.corpus && res.Final != "complete" && si == cs.specs[0] {
 				r.note("corpus program %s: %s %s", cs.name, res.Final, c01Trunc(res.Compile+res.ErrMsg, 160))
 			}
